@@ -28,13 +28,29 @@ def evaluate(ck, data, rules, docg):
                 exact += 1
             if nl and any(l < 1 or l > nl for l in rep_lines):
                 ck.violation("reported-line-outside-file:" + rid, "%s: %s reported line(s) %r in a file of %d lines" % (T.tag(o), rid, [l for l in rep_lines if l < 1 or l > nl][:4], nl), T.rep(o, r))
-    ck.sample({"applications_checked": n, "exact": exact})
-    return {"applications_checked": n, "changed_equals_reported": exact, "applications_that_changed_nothing": noop, "evaluations": n}
+    # the report of a plain check of the same input vs what the fix run does while the token list is still the input's
+    n_first = n_first_ok = n_quiet = 0
+    for o in T.runs(data):
+        if o["status"] != "ok":
+            continue
+        fc = o.get("first_changer")
+        if fc and T.group_of(rules, docg, fc["rule"]) in T.C07_GROUPS:
+            n_first += 1
+            if sorted(set(fc["check_lines"])) == sorted(set(fc["fix_lines"])):
+                n_first_ok += 1
+            else:
+                ck.violation("check-report-differs-from-fix:" + fc["rule"], "%s: a plain check reports %s on lines %r but --fix, on the same token list, repairs lines %r" % (T.tag(o), fc["rule"], fc["check_lines"][:8], fc["fix_lines"][:8]), T.rep(o, oracle="check-vs-fix", detail=fc))
+        for q in o.get("quiet_reporters", []):
+            if T.group_of(rules, docg, q["rule"]) in T.C07_GROUPS:
+                n_quiet += 1
+                ck.violation("reported-but-fix-changes-nothing:" + q["rule"], "%s: a plain check reports %s on lines %r (fixable, error severity) but its fix, on the same token list, changes nothing" % (T.tag(o), q["rule"], q["check_lines"][:8]), T.rep(o, oracle="check-vs-fix", detail=q))
+    ck.sample({"applications_checked": n, "exact": exact, "first_changers_compared_with_plain_check": n_first, "equal": n_first_ok})
+    return {"applications_checked": n, "changed_equals_reported": exact, "first_changers_compared_with_plain_check": n_first, "plain_check_equals_fix": n_first_ok, "reported_but_untouched": n_quiet, "applications_that_changed_nothing": noop, "evaluations": n}
 
 
 def run(tier):
     return T.run_prop("C07", tier, "translation_validation", evaluate,
-                      "every application of a whitespace / indent / alignment / case rule that changed a file in the shared observed fix runs: lines whose text differs (computed by the extracted checker on its own reconstruction) vs the line numbers of the violations handed to update",
+                      "every application of a whitespace / indent / alignment / case rule that changed a file in the shared observed fix runs: lines whose text differs (computed by the extracted checker on its own reconstruction) vs the line numbers of the violations handed to update; plus, per run, the all-phases report of a plain check of the same input compared with what the fix run does while the token list is still the input's (the first rule that changes the file: check lines = repaired lines; fixable error-severity rules that report in the check but change nothing)",
                       ["the reported line of a violation is violation.get_line_number() at update time", "blank-line (vertical spacing) and structure rules are outside the property"])
 
 
